@@ -58,10 +58,13 @@ type c09Deploy struct {
 	Name   string
 	Ed     bool
 	EdPass string // passphrase the Ed25519 file is sealed with ("" = same)
+	// PrimaryEd: the file in the PRIMARY slot holds an Ed25519 key, a type the
+	// loader refuses there: no passphrase may unseal such a server
+	PrimaryEd bool
 }
 
 func c09Deploys() []c09Deploy {
-	return []c09Deploy{{"rsa", false, ""}, {"rsa+ed25519", true, ""}, {"rsa+ed25519-other-passphrase", true, "another passphrase"}}
+	return []c09Deploy{{"rsa", false, "", false}, {"rsa+ed25519", true, "", false}, {"rsa+ed25519-other-passphrase", true, "another passphrase", false}, {"ed25519-in-primary-slot", false, "", true}}
 }
 
 func c09World(d c09Deploy, extraTrusted bool) *vfWorld {
@@ -75,6 +78,9 @@ func c09World(d c09Deploy, extraTrusted bool) *vfWorld {
 	}
 	o.Tweak = func(st *RuntimeState) {
 		st.SSHCARawFileContent = c09Seal(vfKeys.caRSAPem, c09Pass)
+		if d.PrimaryEd {
+			st.SSHCARawFileContent = c09Seal(vfKeys.caEdPem, c09Pass)
+		}
 		st.Ed25519CAFileContent = nil
 		if d.Ed {
 			p := c09Pass
@@ -228,7 +234,7 @@ func c09PassProbe(d c09Deploy, passName, delivery string) (violated bool, key, w
 	before := c09SignerDigest(w)
 	resp := w.DoAdmin(c09Inject(w, pass, delivery))
 	after := c09SignerDigest(w)
-	should := passName == "correct" && delivery == "tls-verified" && d.EdPass == ""
+	should := passName == "correct" && delivery == "tls-verified" && d.EdPass == "" && !d.PrimaryEd
 	unsealed := w.state.Signer != nil
 	pclass := passName
 	if i := strings.IndexByte(passName, '-'); i > 0 {
@@ -251,7 +257,7 @@ func c09PassProbe(d c09Deploy, passName, delivery string) (violated bool, key, w
 			return true, "C09|failed-attempt-answered-ok|secretInjectorHandler", fmt.Sprintf("status %d", resp.Code), ""
 		}
 		// a later correct attempt still works (unless the deployment can never unseal)
-		if d.EdPass == "" {
+		if d.EdPass == "" && !d.PrimaryEd {
 			r2 := w.DoAdmin(c09Inject(w, c09Pass, "tls-verified"))
 			if w.state.Signer == nil {
 				return true, "C09|correct-after-wrong-refused|secretInjectorHandler|" + pclass, fmt.Sprintf("after a %s attempt the correct passphrase was answered %d and the server stayed sealed", passName, r2.Code), ""
@@ -546,7 +552,7 @@ func init() {
 	vfRegister(&vfeng.Check{
 		ID:    "C09",
 		Level: "model_checking",
-		Rule:  "(a) every service-mux route of the current source and the admin-port handlers x {GET,POST} x {no credential, basic-auth, session cookie and client certificate minted by a sibling holding the same CA key} x {with/without the CA key listed as trusted public key} on a sealed instance: nothing signed leaves, readiness says not ready, signer state unchanged; (b) ~120 passphrase variants (correct, empty, every proper prefix, every single-character deletion / substitution x3 / transposition, suffix, case-folded, NUL/newline, 1 MiB) x {no TLS, TLS without verified chain, verified chain} x {RSA, RSA+Ed25519, Ed25519 sealed with another passphrase}: only correct+verified unseals, a failed attempt changes no signer-derived field and a later correct attempt works, a second injection has no effect, the published SSH/X.509/JWKS keys include the keys that sign; (d) every subset and order of {own RSA CA key, own Ed25519 CA key, foreign key} already listed as known public keys x {RSA, RSA+Ed25519}: after unsealing every signing key is published exactly once and verifies issued material; (c) stateless model checking under vsched: all schedules (preemption bound 2, thorough 3) of injection threads racing ordinary requests with yield points inside unsealCA/loadSignersFromPemData: exactly one acknowledged transition and readiness signal, no duplicate CA material, no deadlock, ordinary responses complete, vector-clock race analysis of the signer fields",
+		Rule:  "(a) every service-mux route of the current source and the admin-port handlers x {GET,POST} x {no credential, basic-auth, session cookie and client certificate minted by a sibling holding the same CA key} x {with/without the CA key listed as trusted public key} on a sealed instance: nothing signed leaves, readiness says not ready, signer state unchanged; (b) ~120 passphrase variants (correct, empty, every proper prefix, every single-character deletion / substitution x3 / transposition, suffix, case-folded, NUL/newline, 1 MiB) x {no TLS, TLS without verified chain, verified chain} x {RSA, RSA+Ed25519, Ed25519 sealed with another passphrase, an Ed25519 key in the primary slot (never unsealable)}: only correct+verified unseals, a failed attempt changes no signer-derived field and a later correct attempt works, a second injection has no effect, the published SSH/X.509/JWKS keys include the keys that sign; (d) every subset and order of {own RSA CA key, own Ed25519 CA key, foreign key} already listed as known public keys x {RSA, RSA+Ed25519}: after unsealing every signing key is published exactly once and verifies issued material; (c) stateless model checking under vsched: all schedules (preemption bound 2, thorough 3) of injection threads racing ordinary requests with yield points inside unsealCA/loadSignersFromPemData: exactly one acknowledged transition and readiness signal, no duplicate CA material, no deadlock, ordinary responses complete, vector-clock race analysis of the signer fields",
 		Assumptions: []string{"a handler panic on a sealed instance is fail-closed and recorded, not a violation of this property", "OpenPGP symmetric encryption (x/crypto/openpgp) is trusted"},
 		Shards: func(tier string) int { return 16 },
 		Run: func(c *vfeng.Ctx) {
